@@ -300,6 +300,7 @@ def part_errdisc(ctx):
 def part_idx(ctx):
     from . import rules_idx
     n = rules_idx.check(ctx, "release", ctx.tier, ir.exported_api())
+    rules_idx.check_int(ctx, "release", ctx.tier, ir.exported_api())
     ctx.explanation += ("R-IDX: every exported function taking an index is explored (fully inlined) with the base-cell field assumed 122..127 and the "
                         "reserved/direction field 7: no table subscript that depends on the field may be reachable with a value at or beyond the table's extent "
                         "(quick tier: the %d anchor functions; thorough: all). " % len(rules_idx.QUICK_FUNCS))
@@ -402,6 +403,14 @@ def part_fold(pid):
     return run
 
 
+def part_walk(ctx):
+    from . import rules_walk
+    n = rules_walk.check(ctx, module("release", "ssa"), "release")
+    ctx.explanation += ("R-WALK: typestate on the control skeleton of the success path of gridRingUnsafe / gridDiskDistancesUnsafe for k = 1..5 (callees replaced by "
+                        "effect summaries, cells opaque): every walk step starts from a cell that was tested with isPentagon, every cell written was tested. ")
+    ctx.floor("R-WALK", "in-place ring walks", n + len([b for b in ctx.brokens if b["rule"] == "R-WALK"]), 2)
+
+
 def part_fmt(ctx):
     from . import rules_fmt
     n = rules_fmt.check(ctx, module("release", "ssa"), "release")
@@ -424,13 +433,13 @@ PARTS = {
     "C02": [part_guards("C02"), part_argmin, part_bitprov("indexops", "C02"), part_tables(["T6", "T16", "T19"], pid="C02"), part_wit("C02")],
     "C03": [part_guards("C03"), part_argmin, part_bitprov("validity"), part_bitprov("indexops", "C03"), part_tables(["T7", "T4", "T5", "T9", "T19", "T21"], {"T7": ["isBaseCellPentagonArr", "pentagonCount", "res0CellCount", "getRes0Cells", "getPentagons", "baseCellNeighbors:rows", "baseCellNeighbor60CCWRots:rows"]}, pid="C03"), part_cform("C03"), part_wit("C03")],
     "C04": [part_guards("C04"), part_errflow("C04"), part_bitprov("indexops", "C04"), part_drain(["cellToChildren"]), part_cform("C04"), part_tables(["T7"], {"T7": ["isBaseCellPentagonArr"]}, pid="C04"), part_wit("C04")],
-    "C05": [part_guards("C05"), part_errflow("C05"), part_bitprov("indexops", "C05"), part_tables(["T1", "T2", "T3", "T10", "T11", "T7", "T19"], {"T7": ["baseCellNeighbors", "baseCellNeighbor60CCWRots"]}, pid="C05"), part_cform("C05"), part_hashmod("C05", 1), part_wit("C05")],
+    "C05": [part_guards("C05"), part_errflow("C05"), part_bitprov("indexops", "C05"), part_tables(["T1", "T2", "T3", "T10", "T11", "T7", "T19"], {"T7": ["baseCellNeighbors", "baseCellNeighbor60CCWRots"]}, pid="C05"), part_cform("C05"), part_walk, part_hashmod("C05", 1), part_wit("C05")],
     "C06": [part_guards("C06"), part_errflow("C06"), part_bitprov("indexops", "C06"), part_drain(["uncompactCells"]), part_bw("C06"), part_cform("C06"), part_hashmod("C06", 2)],
     "C08": [part_fold("C08"), part_tables(["T5", "T9", "T13"], pid="C08"), part_cform("C08"), part_wit("C08")],
     "C09": [part_guards("C09"), part_errflow("C09"), part_bitprov("indexops", "C09"), part_tables(["T1", "T2", "T3", "T10", "T14", "T20", "T21", "T22"], pid="C09"), part_ovf, part_wit("C09")],
     "C10": [part_guards("C10"), part_errflow("C10"), part_bitprov("indexops", "C10"), part_tables(["T8", "T12"], pid="C10"), part_cform("C10"), part_fold("C10"), part_wit("C10")],
     "C11": [part_guards("C11"), part_errflow("C11"), part_tables(["T8", "T12", "T7"], {"T7": ["pentagonDirectionFaces"]}, pid="C11"), part_wit("C11")],
-    "C12": [part_guards("C12"), part_ret, part_errdisc, part_errflow("C12"), part_ovf, part_idx, part_bw(None), part_hashmod(None, 5), part_cform("C12"), part_wit("C12")],
+    "C12": [part_guards("C12"), part_bitprov("validity"), part_bitprov("indexops", "C12"), part_ret, part_errdisc, part_errflow("C12"), part_ovf, part_idx, part_bw(None), part_hashmod(None, 5), part_cform("C12"), part_wit("C12")],
     "C13": [part_guards("C13"), part_errflow("C13"), part_bitprov("indexops", "C13"), part_cform("C13"), part_wit("C13")], "C14": [part_guards("C14"), part_errflow("C14"), part_bw("C14"), part_cform("C14"), part_tables(["T14", "T20", "T21", "T22"], pid="C14")], "C15": [part_guards("C15"), part_errflow("C15"), part_bw("C15"), part_sib, part_tables(["T17", "T18"], pid="C15"), part_wit("C15")],
     "C19": [part_tables(["T5", "T9"], pid="C19"), part_bw("C19"), part_cform("C19"), part_wit("C19")],
     "C20": [part_guards("C20"), part_fmt, part_wit("C20")],
